@@ -1,6 +1,7 @@
 package main
 
 import (
+	"sort"
 	"os"
 	"fmt"
 	"go/types"
@@ -54,6 +55,45 @@ func (vc *FuncVC) origin(v ssa.Value) string {
 		return "phi:" + x.Comment
 	}
 	return "value"
+}
+
+// staticSites lists the call instructions of the function that the watch labelled L matches, in source order
+// (closure/go watches, which are not call instructions, are not listed).
+func (vc *FuncVC) staticSites(label string) []ssa.Instruction {
+	if r, ok := vc.siteCache[label]; ok {
+		return r
+	}
+	var w *Watch
+	for _, x := range vc.watches {
+		if x.Label == label {
+			w = x
+		}
+	}
+	var out []ssa.Instruction
+	if w != nil {
+		for _, b := range vc.Fn.Blocks {
+			for _, in := range b.Instrs {
+				ci, ok := in.(ssa.CallInstruction)
+				if !ok {
+					continue
+				}
+				c := ci.Common()
+				if _, isB := c.Value.(*ssa.Builtin); isB {
+					continue
+				}
+				name, kind, _ := vc.calleeName(c)
+				if vc.matchWatch(w, name, kind) {
+					out = append(out, in)
+				}
+			}
+		}
+		sort.SliceStable(out, func(i, j int) bool { return out[i].Pos() < out[j].Pos() })
+	}
+	if vc.siteCache == nil {
+		vc.siteCache = map[string][]ssa.Instruction{}
+	}
+	vc.siteCache[label] = out
+	return out
 }
 
 func (vc *FuncVC) matchWatch(w *Watch, name, kind string) bool {
@@ -331,6 +371,7 @@ func (vc *FuncVC) execCall(in ssa.Instruction, c *ssa.CallCommon, res ssa.Value)
 		vc.callPre[le.w.Label] = append(vc.callPre[le.w.Label], vc.cur)
 		vc.callGuard[le.w.Label] = append(vc.callGuard[le.w.Label], vc.g())
 		vc.callBlock[le.w.Label] = append(vc.callBlock[le.w.Label], vc.curBlock)
+		vc.callInstr[le.w.Label] = append(vc.callInstr[le.w.Label], in)
 	}
 	var result *Val
 	var sig *types.Signature
